@@ -38,9 +38,18 @@ def quantize_bytes(mb, rec, seed=0):
 def reload_oracle(ctx, cmds, with_model=None):
     """the property on the real code: get -> json -> fresh Quantizer -> equal recipe, equal resolution (and equal bytes)."""
     real = fr.RealRecipe()
-    for c in cmds:
+    for k, c in enumerate(cmds):
         real.step(c)
+        if k % 2:
+            real.q.get_quantization_recipe()  # an export in the middle of the history
     rec = real.q.get_quantization_recipe()
+    # the export must describe the rules that resolution actually uses: a fresh quantizer replaying the updates agrees
+    fresh = fr.RealRecipe()
+    for c in cmds:
+        fresh.step(c)
+    if json.loads(json.dumps(fresh.q.get_quantization_recipe())) != json.loads(json.dumps(rec)):
+        ctx.fail("exported recipe depends on earlier exports (stale export)", {"adds": cmds}, "export-stale")
+        return
     rec_json = json.loads(json.dumps(rec))
     replay = {"adds": cmds, "recipe": rec_json}
     try:
@@ -142,6 +151,8 @@ def run(ctx):
         real = fr.RealRecipe()
         for c in adds:
             real.step(c)
+            if i % 2 and rng.random() < 0.5:
+                real.step(rng.choice([{"k": "get"}, {"k": "need_cal"}]))  # exports between updates must not matter
         rec_json = json.loads(json.dumps(real.q.get_quantization_recipe()))
         cmds = adds + [{"k": "get"}, {"k": "load", "recipe_plain": rec_json}, {"k": "get"}, {"k": "need_cal"}] + fr.queries()[:12]
         fr.run_history(ctx, drv, cmds, family="recipe.reload")
